@@ -772,6 +772,29 @@ func (e *Env) call(c *ast.CallExpr) Value {
 			v.T = NullT
 		}
 		return Value{T: Store(a.T, i.T, v.T)}
+	case "aload":
+		// aload(obj, "field"): the value of a sync/atomic.Uint32 (etc.) field
+		v := e.eval(args[0])
+		lit, ok := args[1].(*ast.BasicLit)
+		if !ok || v.Typ == nil {
+			e.fail("aload(obj, \"field\")")
+		}
+		fname, _ := strconv.Unquote(lit.Value)
+		pt, ok := v.Typ.Underlying().(*types.Pointer)
+		if !ok {
+			e.fail("aload: not a pointer")
+		}
+		st, ok := structOf(pt.Elem())
+		if !ok {
+			e.fail("aload: not a struct pointer")
+		}
+		path := findField(st, fname)
+		if path == nil {
+			e.fail("aload: no field %s", fname)
+		}
+		name, _ := x.fieldHeapName(pt.Elem(), path)
+		arr := x.heapGetIn(e.heap, e.epoch, name+"$v", ArraySort("Ref", "Int"))
+		return Value{T: Select(arr, v.T), Typ: types.Typ[types.Uint32]}
 	case "nilof":
 		// nilof("*Member"): the typed nil of a pointer/slice/interface type
 		lit, ok := args[0].(*ast.BasicLit)
